@@ -179,6 +179,33 @@ let run_options (line : string) : string =
        | None -> "ERR")
   | _ -> failwith "bad options case"
 
+let coq_string (s : string) = s
+
+let perr_string (e : perr) : string =
+  match e with
+  | PDivZero -> "DivideByZero"
+  | PNotBinary v -> "NotBinary " ^ s_of_z v
+  | PNotU32 (v, c) -> "NotU32 " ^ s_of_z v ^ " " ^ s_of_z c
+  | PAssert c -> "AssertFailed " ^ s_of_z c
+  | PImpure -> "Impure"
+
+(* case: N <name> | <stack>   or   I <family> <imm> | <stack> *)
+let run_spec_case (line : string) : string =
+  match String.split_on_char '|' line with
+  | [hd; stacks] ->
+      let stack = List.map z_of_string (split_ws stacks) in
+      let r =
+        (match split_ws hd with
+         | ["N"; name] -> spec_by_name (coq_string name) stack
+         | ["I"; fam; v] -> spec_by_imm (coq_string fam) (z_of_string v) stack
+         | _ -> failwith "bad spec case") in
+      (match r with
+       | SOk l -> "OK stack=" ^ String.concat "," (List.map s_of_z l)
+       | SErr e -> "ERR " ^ perr_string e
+       | SUndef -> "UNDEF"
+       | SNoSpec -> "NOSPEC")
+  | _ -> failwith "bad spec case"
+
 let () =
   let family = Sys.argv.(1) in
   let ic = open_in Sys.argv.(2) in
@@ -191,6 +218,7 @@ let () =
              (match family with
               | "exec" -> run_exec line
               | "options" -> run_options line
+              | "spec" -> run_spec_case line
               | _ -> failwith "unknown family")
            with Failure m -> "DRIVER-FAIL " ^ m
               | Stack_overflow -> "DRIVER-FAIL stack overflow" in
